@@ -89,6 +89,10 @@ func validateSupportedChains(i interface{}) error {
 			return fmt.Errorf("empty chain id")
 		}
 
+		if strings.ContainsAny(chain.ChainId, "/:") {
+			return fmt.Errorf("chain id %s must not contain '/' or ':'", chain.ChainId)
+		}
+
 		if strings.TrimSpace(chain.ChainName) == "" {
 			return fmt.Errorf("empty chain name")
 		}
